@@ -4,7 +4,7 @@ every captured value must satisfy == or the predicate).  Exit 1 and print the in
 import itertools
 import sys
 
-sys.path.insert(0, "/repo")
+sys.path.insert(0, __import__("os").environ.get("PVC_REPO", "/repo"))
 from ptera.selector import Element, Call, MatchFunction  # noqa: E402
 from ptera.interpret import Capture  # noqa: E402
 
